@@ -412,9 +412,9 @@ func Main(prop, level string, assumptions []string, run func(c *Check), replay R
 	for i, r := range results {
 		if r.err != nil {
 			os.Stdout.Write(r.out)
-			code := 2
 			fmt.Printf("MACHINERY-FAULT (not a verdict): worker %d failed: %v\n", i, r.err)
-			os.Exit(code)
+			os.RemoveAll(tmp)
+			os.Exit(2)
 		}
 		raw, err := os.ReadFile(filepath.Join(tmp, fmt.Sprintf("p%d.json", i)))
 		if err != nil {
@@ -564,6 +564,7 @@ func Main(prop, level string, assumptions []string, run func(c *Check), replay R
 	}
 	fmt.Printf("%s %s: evaluations=%d states=%d transitions=%d exhaustive=%v known=%d violations=%d wall=%.1fs\n",
 		prop, *tier, evals, states, trans, !merged.Capped, len(knownSeen), nviol, time.Since(start).Seconds())
+	os.RemoveAll(tmp)
 	if nviol > 0 {
 		os.Exit(1)
 	}
